@@ -170,7 +170,11 @@ fn calc_yearly_max_cost_day(max_day_costs: &MaxDayCosts) -> YearlyMaxCosts {
             Some(old_date) => {
                 let old_date_cost =
                     max_day_costs.max_costs_by_day.get(old_date).unwrap();
-                if *old_date_cost.total < *day_cost.total {
+                // On equal totals, keep the earliest day, so that the result does
+                // not depend on the (random) iteration order of the map.
+                if *old_date_cost.total < *day_cost.total
+                    || (*old_date_cost.total == *day_cost.total && day < old_date)
+                {
                     max_cost_day_for_year.insert(day.year(), day.clone());
                 }
             }
